@@ -97,6 +97,26 @@ PROPS = {
             'the loader/master handlers that call it are not',
         ],
     },
+    'C20': {
+        'contract_modules': ['c20_appmonitor'],
+        'functions': ['treadmill.sproc.appmonitor:reevaluate'],
+        'replay': 'c20.py',
+        'assumptions': [
+            'per evaluation only: the clauses about the two REST requests are call-site obligations at the two '
+            'restclient.post calls of reevaluate (the request strings are formatted from exactly the locals the '
+            'clauses speak about); restclient.post returns or raises NotFoundError/BadRequestError/ValidationError/'
+            'other Exception and has no effect on the monitor state (dependency contract)',
+            'never both create and delete for one application in one evaluation: the two call sites assert '
+            'count > current and count < current for the same grouped/monitors maps, and a dict iteration visits '
+            'each key once (dependency contract of dict iteration)',
+            'monitor records are valid on entry (count >= 0, rate == 2*count/3600, 0 <= available <= 2*count, '
+            'last_update <= now): what _monitor_data_watch installs; the nested watch closures are not executed',
+            'state["suspended"] is updated through an alias in the real code; the model updates a local copy '
+            '(no clause of this check depends on the write-back)',
+            'the history clause (created_total bounded by the rate budget over time) and the instance API quota '
+            'are not stated; int() of a real is modelled as floor (equal to truncation for the non-negative values here)',
+        ],
+    },
     'C19': {
         'contract_modules': ['c19_allocation_api'],
         'functions': ['treadmill.api.allocation:_check_limit', 'treadmill.api.allocation:_calc_free',
